@@ -756,6 +756,13 @@ pub fn gen_pipe(rng: &mut Rng, wish: &PipeWish) -> Pipe {
                 opts.push(vec!["--missing-value-keyword=NA".into()]);
             }
             if rng.chance(1, 6) {
+                opts.push(vec![format!("--null-keyword={}", rng.pick(&["NIL", "", "n/a"]))]);
+            }
+            if rng.chance(1, 8) {
+                opts.push(vec!["--true-keyword=yes".into()]);
+                opts.push(vec!["--false-keyword=no".into()]);
+            }
+            if rng.chance(1, 6) {
                 opts.push(vec!["--string-prefix=<".into()]);
                 opts.push(vec!["--string-postfix=>".into()]);
             }
